@@ -120,26 +120,26 @@ Section Lookup.
           intros c Hc key p. apply (IH c Hc h' (Hk c Hc) (Ho2 c Hc) (Hl2 c Hc)).
   Qed.
 
-  (* membership, for keys no longer than the depth (longer keys: finding C05-contains-overlong) *)
+  (* membership = the leaf lookup succeeds, for keys of every length *)
   Lemma contains_lookup : forall (t : level) h, uniform h t = true ->
-    forall key pos, (length key <= S h)%nat ->
+    forall key pos,
     M_contains A eqb key t = match M_leaf_loc A eqb key t pos with Ok _ => true | Err _ => false end.
   Proof.
-    induction t as [o ls|o ls ks IH] using level_ind'; intros h Hu key pos Hlen.
-    - apply uniform_leaf in Hu as [-> _]. destruct key as [|k [|k2 key]]; [reflexivity| |cbn in Hlen; lia].
-      cbn [M_contains M_leaf_loc lv_labels]. destruct (idx k ls); reflexivity.
+    induction t as [o ls|o ls ks IH] using level_ind'; intros h Hu key pos.
+    - destruct key as [|k key']; [reflexivity|].
+      cbn [M_contains M_leaf_loc lv_labels]. destruct (idx k ls); [|reflexivity]. destruct key'; reflexivity.
     - apply uniform_node in Hu as (h' & -> & Hl & Hne & Hk). destruct key as [|k key']; [reflexivity|].
       cbn [M_contains M_leaf_loc lv_labels]. destruct (idx k ls) as [i|]; [|reflexivity].
       destruct (nth_error ks i) as [c|] eqn:E; [|reflexivity].
       assert (Hin : In c ks) by (eapply nth_error_In; eauto).
-      rewrite Forall_forall in IH, Hk. apply (IH c Hin h' (Hk c Hin)). cbn in Hlen. lia.
+      rewrite Forall_forall in IH, Hk. apply (IH c Hin h' (Hk c Hin)).
   Qed.
 
   Theorem contains_exact : forall (t : level) h,
     uniform h t = true -> offsets_ok t = true -> labels_ok A eqb t = true ->
-    forall key, (length key <= S h)%nat -> M_contains A eqb key t = S_contains A eqb (flatten t) key.
+    forall key, M_contains A eqb key t = S_contains A eqb (flatten t) key.
   Proof.
-    intros t h Hu Ho Hl key Hlen. rewrite (contains_lookup t h Hu key 0 Hlen).
+    intros t h Hu Ho Hl key. rewrite (contains_lookup t h Hu key 0).
     rewrite (leaf_loc_exact t h Hu Ho Hl key 0). unfold S_contains, found.
     destruct (ridx key (flatten t)); reflexivity.
   Qed.
